@@ -1,7 +1,6 @@
 package main
 
 import (
-	"sync/atomic"
 	"bufio"
 	"bytes"
 	"context"
@@ -14,6 +13,7 @@ import (
 	"strconv"
 	"strings"
 	"sync"
+	"sync/atomic"
 	"time"
 
 	"github.com/attestantio/dirk/core"
@@ -242,6 +242,10 @@ func (r *router) Commit(_ context.Context, recipient *core.Endpoint, account str
 	if !ok {
 		return nil, nil, errors.New("no such instance")
 	}
+	if f := r.c.fault; f != nil && f.kind == "delayall" && f.msg == "commit" && (f.from == 0 || f.from == r.from.id) {
+		ms, _ := strconv.Atoi(f.arg)
+		time.Sleep(time.Duration(ms) * time.Millisecond)
+	}
 	if f := r.faultFor("commit", recipient.ID); f != nil && f.kind == "delay" {
 		ms, _ := strconv.Atoi(f.arg)
 		time.Sleep(time.Duration(ms) * time.Millisecond)
@@ -293,6 +297,20 @@ func (r *router) SendContribution(_ context.Context, recipient *core.Endpoint, a
 			var other bls.SecretKey
 			other.SetByCSPRNG()
 			sendSecret = other
+		case "equiv":
+			// equivocation: this recipient gets a share and vector of f(x)+d*x — same constant term (so the same
+			// composite key), consistent with each other (so it verifies), but a different polynomial than the others see
+			if len(vVec) >= 2 {
+				var d, zero, term bls.SecretKey
+				d.SetByCSPRNG()
+				id := blsID(recipient.ID)
+				if err := term.Set([]bls.SecretKey{zero, d}, id); err == nil {
+					sendSecret = secret
+					sendSecret.Add(&term)
+					sendVec = append([]bls.PublicKey{}, vVec...)
+					sendVec[1].Add(d.GetPublicKey())
+				}
+			}
 		case "vvecalter":
 			sendVec = append([]bls.PublicKey{}, vVec...)
 			var other bls.SecretKey
@@ -717,6 +735,30 @@ func dkgEngine(workdir string) {
 				sort.Slice(ids, func(i, j int) bool { return ids[i] < ids[j] })
 				res = fmt.Sprintf("ok %x %s", pub, idsStr(ids))
 			}
+		case "gens":
+			// gens <ini1> <client> <account> <t1> <n1> <hold ms> <ini2> <t2> <n2>: generation X through ini1 with ALL its commit
+			// requests held back for <hold ms>; after a third of that, generation Y for the same name through ini2
+			in1, in2 := c.insts[u64(f[1])], c.insts[u64(f[7])]
+			c.log = nil
+			c.fault = &dkgFault{kind: "delayall", msg: "commit", from: u64(f[1]), arg: f[6]}
+			creds := &checker.Credentials{Client: unhexStr(f[2]), RequestID: "r"}
+			r1 := make(chan error, 1)
+			go func() {
+				_, _, err := in1.process.OnGenerate(context.Background(), creds, unhexStr(f[3]), []byte("pass"), uint32(u64(f[4])), uint32(u64(f[5])))
+				r1 <- err
+			}()
+			ms, _ := strconv.Atoi(f[6])
+			time.Sleep(time.Duration(ms/3) * time.Millisecond)
+			_, _, err2 := in2.process.OnGenerate(context.Background(), creds, unhexStr(f[3]), []byte("pass"), uint32(u64(f[8])), uint32(u64(f[9])))
+			err1 := <-r1
+			c.fault = nil
+			st := func(e error) string {
+				if e != nil {
+					return "err"
+				}
+				return "ok"
+			}
+			res = st(err1) + " " + st(err2)
 		case "holds":
 			var parts []string
 			for _, id := range c.ids {
@@ -815,6 +857,28 @@ func dkgEngine(workdir string) {
 			close(start)
 			wg.Wait()
 			res = fmt.Sprintf("ok=%d", okN)
+		case "hprepares":
+			// hprepares <inst> <caller> <account> <t> <ids> <a> <b>: a Prepare whose participant list pairs the endpoint
+			// (name, port) of a with the id of b and vice versa
+			in := c.insts[u64(f[1])]
+			eps := c.endpoints(parseIDs(f[5]))
+			a, b := u64(f[6]), u64(f[7])
+			var ea, eb *pb.Endpoint
+			for _, e := range eps {
+				if e.Id == a {
+					ea = e
+				}
+				if e.Id == b {
+					eb = e
+				}
+			}
+			if ea != nil && eb != nil {
+				ea.Name, eb.Name = eb.Name, ea.Name
+				ea.Port, eb.Port = eb.Port, ea.Port
+			}
+			req := &pb.PrepareRequest{Account: unhexStr(f[3]), Threshold: uint32(u64(f[4])), Participants: eps, Passphrase: []byte("pass")}
+			_, err := in.handler.Prepare(callerCtx(hs(f[2])), wire(req, &pb.PrepareRequest{}))
+			res = errClassH(err)
 		case "hexecute":
 			in := c.insts[u64(f[1])]
 			_, err := in.handler.Execute(callerCtx(hs(f[2])), wire(&pb.ExecuteRequest{Account: unhexStr(f[3])}, &pb.ExecuteRequest{}))
